@@ -31,7 +31,9 @@ ASSUMPTIONS = ["regular expressions and user functions are parameters of the mod
                "str(obj) for non-string criteria, truthiness of a non-dict attrs argument and Python dict semantics of "
                "**kwargs are taken from the interpreter",
                "Tag.string is shared between model and specification (its meaning is C13's)",
-               "soupsieve (CSS clause) is third-party: differential check only"]
+               "soupsieve (CSS clause) is third-party and trusted: Spec.CssSpec.select_spec is tied to it by correspondence on the selector "
+               "subset (type, .class, #id, [attr], [attr=v], compounds, descendant/child combinators, lists); the proof "
+               "C10_css_select_is_find_all is about that specification"]
 
 AXES = ["descendants", "children", "next", "previous", "next_siblings", "previous_siblings", "parents"]
 PLURAL = ["find_all", "find_all", "find_all_next", "find_all_previous", "find_next_siblings", "find_previous_siblings", "find_parents"]
@@ -598,8 +600,8 @@ def small_trees(maxn):
     for n in range(0, maxn + 1):
         for shape in G.shapes(n):
             for evs in G.leaf_variants(shape):
-                if any(e[0] == "d" and e[1].startswith("c") for e in evs):
-                    continue                       # comments: covered by the parsed documents
+                if any(e[0] == "d" and (e[1] == "" or e[1].startswith("c")) for e in evs):
+                    continue                       # comments (also empty ones): covered by the parsed documents
                 evs2, k = [], 0
                 for e in evs:
                     if e[0] == "s":
@@ -996,52 +998,183 @@ def shorthand_corpus():
     return Case([soup], {"markup": "<b><a>t1</a></b> + new tags Tag xTag x _a content Tags ag xTagTag appended to <b>"})
 
 
-def css_block(ctx, case):
-    """select() against the find_all expression of the same selector (third-party engine: differential only)."""
+# selectors of the common subset, structured as in Spec/CssSpec.v:
+#   simple   ("c", cls) | ("i", id) | ("k", key) | ("e", key, value)
+#   compound (type or None, [simples])
+#   complex  (compound, [(comb, compound), ...])    comb 0 = descendant, 1 = child; nearest first
+#   selector [complex, ...]
+def compound_text(c):
+    tp, simples = c
+    out = tp or ""
+    for sm in simples:
+        if sm[0] == "c":
+            out += "." + sm[1]
+        elif sm[0] == "i":
+            out += "#" + sm[1]
+        elif sm[0] == "k":
+            out += "[%s]" % sm[1]
+        else:
+            out += '[%s="%s"]' % (sm[1], sm[2])
+    return out or "*"
+
+
+def complex_text(cx):
+    last, left = cx
+    out = compound_text(last)
+    for comb, c in left:
+        out = compound_text(c) + (" > " if comb else " ") + out
+    return out
+
+
+def selector_text(sel):
+    return ", ".join(complex_text(cx) for cx in sel)
+
+
+def enc_compound(c):
+    tp, simples = c
+    es = []
+    for sm in simples:
+        es.append([{"c": 0, "i": 1, "k": 2, "e": 3}[sm[0]]] + list(sm[1:]))
+    return [[] if tp is None else [tp], es]
+
+
+def enc_selector(sel):
+    return [[enc_compound(last), [[comb, enc_compound(c)] for comb, c in left]] for last, left in sel]
+
+
+def compound_call(c):
+    """The find_all arguments that read a compound: name and an attrs dictionary."""
+    tp, simples = c
+    attrs = {}
+    for sm in simples:
+        if sm[0] == "c":
+            attrs["class"] = sm[1]
+        elif sm[0] == "i":
+            attrs["id"] = sm[1]
+        elif sm[0] == "k":
+            attrs[sm[1]] = True
+        else:
+            attrs[sm[1]] = sm[2]
+    return tp, attrs
+
+
+def left_fa(x, left):
+    """The left part of a complex selector by find_parent / find_parents (Spec.CssSpec.left_fa)."""
+    if not left:
+        return True
+    (comb, c), rest = left[0], left[1:]
+    name, attrs = compound_call(c)
+    if comb:
+        p = x.find_parent(name, attrs)
+        return p is not None and p is x.find_parent() and left_fa(p, rest)
+    return any(left_fa(p, rest) for p in x.find_parents(name, attrs))
+
+
+def select_fa(tag, sel):
+    """select() as a composition of find_all calls (Spec.CssSpec.select_fa), on the implementation."""
+    lists = []
+    for last, left in sel:
+        name, attrs = compound_call(last)
+        lists.append([x for x in tag.find_all(name, attrs) if left_fa(x, left)])
+    return [x for x in tag.find_all() if any(any(x is y for y in l) for l in lists)]
+
+
+def css_selectors(case, rng):
     objs = case.forest.objs
-    if any(isinstance(o, Tag) and (o.prefix or ":" in o.name or o.name != o.name.lower()) for o in objs):
-        return
     tags = [o for o in objs if isinstance(o, Tag)]
-    names = sorted({t.name for t in tags if t.name != "[document]"})[:3]
-    classes = sorted({c for t in tags for c in (t.get("class") or []) if isinstance(t.get("class"), list)})[:3]
-    ids = sorted({t["id"] for t in tags if isinstance(t.get("id"), str) and t["id"].isalnum() and not t["id"][0].isdigit()})[:2]
-    sels = []
-    for n in names:
-        sels.append((n, lambda t, n=n: t.find_all(n)))
-    for c in classes:
-        sels.append(("." + c, lambda t, c=c: t.find_all(class_=c)))
-    for i in ids:
-        sels.append(("#" + i, lambda t, i=i: t.find_all(id=i)))
-        sels.append(('[id="%s"]' % i, lambda t, i=i: t.find_all(id=i)))
-    for k in ("class", "id", "data-k"):
-        sels.append(("[%s]" % k, lambda t, k=k: t.find_all(attrs={k: True})))
-    sels.append(('[data-k="x"]', lambda t: t.find_all(attrs={"data-k": "x"})))
-    for a, b in itertools.permutations(names, 2):
-        sels.append(("%s %s" % (a, b), lambda t, a=a, b=b: [x for x in t.find_all(b) if x.find_parent(a) is not None]))
-        sels.append(("%s > %s" % (a, b), lambda t, a=a, b=b: [x for x in t.find_all(b) if x.find_parent() is not None and x.find_parent().name == a]))
-    for n in names[:2]:
-        for c in classes[:2]:
-            sels.append(("%s.%s" % (n, c), lambda t, n=n, c=c: t.find_all(n, class_=c)))
-    for start, o in enumerate(objs):
+    names = sorted({t.name for t in tags if t.name.isalnum()})[:4]
+    classes = sorted({c for t in tags if isinstance(t.get("class"), list) for c in t["class"] if c.isalnum()})[:3]
+    ids = sorted({t["id"] for t in tags if isinstance(t.get("id"), str) and t["id"].isalnum()})[:3]
+    comps = [(n, []) for n in names] + [(None, [("c", c)]) for c in classes]
+    comps += [(None, [("i", i)]) for i in ids if not i[0].isdigit()] + [(None, [("e", "id", i)]) for i in ids]
+    comps += [(None, [("k", k)]) for k in ("class", "id", "data-k", "rel")] + [(None, [("e", "data-k", "x")]), (None, [("e", "href", "k")])]
+    comps += [(n, [("c", c)]) for n in names[:2] for c in classes[:2]] + [(n, [("k", "id")]) for n in names[:2]]
+    if names and classes and ids:
+        comps.append((names[0], [("c", classes[0]), ("e", "id", ids[0])]))
+        comps.append((None, [("c", classes[-1]), ("k", "id")]))
+    sels = [[(c, [])] for c in comps]
+    pool = comps[:len(names) + len(classes) + 2] or comps
+    for _ in range(14):
+        if not pool:
+            break
+        depth = rng.choice([1, 1, 2, 3])
+        sels.append([(rng.choice(comps), [(rng.choice([0, 1]), rng.choice(pool)) for _ in range(depth)])])
+    for _ in range(5):
+        if len(sels) >= 2:
+            sels.append([rng.choice(sels)[0] for _ in range(rng.choice([2, 2, 3]))])
+    return sels
+
+
+def css_domain(case):
+    for o in case.forest.objs:
+        if isinstance(o, Tag):
+            if o.prefix or (o.name != o.name.lower()) or (":" in o.name and False):
+                return False
+            for k, v in o.attrs.items():
+                if k == "class" and not isinstance(v, list):
+                    return False
+                if k in ("id", "data-k", "href") and isinstance(v, list):
+                    return False
+    return True
+
+
+_PENDING_CSS = []
+
+
+def css_block(ctx, case):
+    """The CSS clause.  (a) property: select() = the find_all composition, on the implementation; (b) the Coq
+    specification of select() (Spec.CssSpec.select_spec) against soupsieve's answer (correspondence: soupsieve is
+    third-party and trusted) and against its proved find_all form."""
+    if not css_domain(case):
+        return
+    sels = css_selectors(case, ctx.rng)
+    items, recs = [], []
+    for start, o in enumerate(case.forest.objs):
         if not isinstance(o, Tag):
             continue
-        for sel, fn in sels:
+        for sel in sels:
+            text = selector_text(sel)
             try:
-                got = o.select(sel)
+                got = o.select(text)
             except Exception as e:
-                ctx.notes.append("soupsieve rejected selector %r: %s" % (sel, type(e).__name__))
+                ctx.count("css_rejected_by_soupsieve")
                 continue
-            exp = fn(o)
-            ctx.case((case_key(case), start, "css", sel))
+            exp = select_fa(o, sel)
+            ctx.case((case_key(case), start, "css", text))
             ctx.count("css_cases")
-            if len(got) != len(exp) or any(x is not y for x, y in zip(got, exp)):
-                ctx.fail({"tree": case.describe(), "start": start, "selector": sel},
-                         "CSS selection disagrees with find_all on a selector both can express",
-                         [case.forest.oid(x) for x in got], [case.forest.oid(x) for x in exp], tag="css")
-            one_ = o.select_one(sel)
-            if (one_ is None) != (not exp) or (exp and one_ is not exp[0]):
-                ctx.fail({"tree": case.describe(), "start": start, "selector": sel}, "select_one is not the first of select",
-                         None if one_ is None else case.forest.oid(one_), case.forest.oid(exp[0]) if exp else None, tag="css")
+            gid, eid = [case.forest.oid(x) for x in got], [case.forest.oid(x) for x in exp]
+            if gid != eid:
+                ctx.fail({"tree": case.describe(), "start": start, "selector": text},
+                         "CSS selection disagrees with find_all on a selector both can express", gid, eid, tag="css")
+            one_ = o.select_one(text)
+            if (None if one_ is None else case.forest.oid(one_)) != (eid[0] if eid else None):
+                ctx.fail({"tree": case.describe(), "start": start, "selector": text}, "select_one is not the first of select",
+                         None if one_ is None else case.forest.oid(one_), eid[0] if eid else None, tag="css")
+            items.append([start, enc_selector(sel)])
+            recs.append((start, text, gid))
+    if ctx.build.model_ok and items:
+        _PENDING_CSS.append(([10002, case.forest.dump(), case.ext(), items], case, recs))
+        if len(_PENDING_CSS) >= 40:
+            flush_css(ctx)
+
+
+def flush_css(ctx):
+    global _PENDING_CSS
+    pending, _PENDING_CSS = _PENDING_CSS, []
+    if not pending:
+        return
+    outs = ctx.model.run([p[0] for p in pending], chunk=40)
+    for (cmd, case, recs), out in zip(pending, outs):
+        if isinstance(out, tuple):
+            ctx.disagree("extracted model failed", {"tree": case.describe()}, None, out[1])
+            continue
+        for (start, text, gid), (spec, fa, ok) in zip(recs, out):
+            ctx.count("css_spec_evaluated")
+            cdesc = {"tree": case.describe(), "start": start, "selector": text}
+            if spec != gid:
+                ctx.disagree("Spec.CssSpec.select_spec ~ soupsieve's select (third-party, trusted)", cdesc, gid, spec)
+            elif ok and fa != spec:
+                ctx.disagree("Spec.CssSpec.select_fa = select_spec (C10_css_select_is_find_all, evaluated)", cdesc, spec, fa)
 
 
 # ----------------------------------------------------------------------------------- corpus
@@ -1082,6 +1215,7 @@ def run(ctx):
     finally:
         flush_model(ctx)
         flush_shorthand(ctx)
+        flush_css(ctx)
 
 
 def run_all(ctx):
